@@ -210,6 +210,7 @@ def run(ctx):
     if not okp:
         chk.unrecognised("R07.1", "no-ok", "no Ok path found in the token check", loc(tc["span"]))
     scan_closure = None
+    fold_closure = None
     for p in okp:
         dec = [(show(d[1]), d[2], d[0]) for d in p.decisions]
         F = rel.Facts(p)
@@ -221,7 +222,7 @@ def run(ctx):
         # the counter: a value mutated by an iterator adaptor that received a closure capturing it mutably
         g_final = None
         for s, l, _ in dec:
-            m = re.match(r"^binop:(Ne|Eq)\((mut:.*), 0_i32\)$", s)
+            m = re.match(r"^binop:(Ne|Eq)\((mut:.*|ok\(std::iter::Iterator::try_fold\(.*\)\)|\.0\(as:Ok\(std::iter::Iterator::try_fold\(.*\)\)\)), 0_i32\)$", s)
             if m:
                 g_final = (m.group(1) == "Ne" and l is False) or (m.group(1) == "Eq" and l is True)
                 cnt_term = m.group(2)
@@ -237,6 +238,13 @@ def run(ctx):
                             isinstance(v, Const) and v.ty == "i32" for v in c.caps.values()):
                         g_scan = True
                         scan_closure = c
+            # fold form: tokens.iter().enumerate().try_fold(0, |cnt, (i, tok)| ..)? - every token, in order, starting at 0
+            if d[0] == "try" and d[2] == "ok" and re.match(
+                    r"^std::iter::Iterator::try_fold\((std::iter::Iterator::enumerate\()?core::slice::<impl \[T\]>::iter\(toks\)\)?, 0_i32, closure<\{closure#\d+\}>\)$", show(d[1])):
+                for c in _closures(d[1]):
+                    if fb.bodies.get(c.path) is not None:
+                        g_scan = True
+                        fold_closure = (c, "enumerate(" in show(d[1]))
         LAST = ("index(toks, binop:Sub(core::slice::<impl [T]>::len(toks), 1_usize))", ".0(as:Some(core::slice::<impl [T]>::last(toks)))")
         last_tags = [l for x, l in F.tags if rel.cstr(x) in LAST]
         g_last = bool(last_tags) and "Op" not in last_tags
@@ -292,6 +300,43 @@ def run(ctx):
                         good, why = False, "non-negative running count is rejected"
             if good:
                 chk.ok("R07.1", "scan:%s" % name, "delta %+d" % delta, loc(sb["span"]))
+            else:
+                chk.violation("R07.1", "scan:%s" % name, why, loc(sb["span"]))
+
+    if fold_closure is not None and scan_closure is None:
+        fc, enumerated = fold_closure
+        sb = fb.bodies[fc.path]
+        cases = {
+            "close": (Variant(TOK, "Paren", {"0": Variant("parser::Paren", "Close", {})}), -1),
+            "open": (Variant(TOK, "Paren", {"0": Variant("parser::Paren", "Open", {})}), 1),
+            "num": (Variant(TOK, "Num", {"0": Sym("n")}), 0),
+            "var": (Variant(TOK, "Var", {"0": Sym("v")}), 0),
+            "op": (Variant(TOK, "Op", {"0": Sym("o")}), 0),
+        }
+        for name, (tok, delta) in cases.items():
+            item = Tup([Sym("i"), tok]) if enumerated else tok
+            pps = [q for q in Interp(fb, _NoInline()).run(sb, [Closure(fc.path, {k: Sym("cap_" + k) for k in fc.caps}), Sym("cnt"), item]) if q.status != "unreachable"]
+            good, why = bool(pps), "no path"
+            for q in pps:
+                res = q.result.variant if q.status == "return" and isinstance(q.result, Variant) else None
+                pay = rel.cstr(q.result.fields.get("0")) if res == "Ok" else None
+                if delta == 0:
+                    if res != "Ok" or pay != "cnt":
+                        good, why = False, "a %s token changes the counter or is rejected (%s)" % (name, pay or res)
+                    continue
+                new_ = "binop:Add(cnt, %d_i32)" % delta
+                neg = [d for d in q.decisions if rel.cstr(d[1]) == "binop:Lt(%s, 0_i32)" % new_]
+                ge = [d for d in q.decisions if rel.cstr(d[1]) == "binop:Ge(%s, 0_i32)" % new_]
+                if not (neg or ge):
+                    good, why = False, "running count is not tested for being negative after a %s parenthesis" % name
+                    continue
+                isneg = (neg and neg[0][2] is True) or (ge and ge[0][2] is False)
+                if isneg and res != "Err":
+                    good, why = False, "negative running count does not yield Err"
+                elif not isneg and (res != "Ok" or pay != new_):
+                    good, why = False, "counter update for %s is %s, expected cnt%+d" % (name, pay or res, delta)
+            if good:
+                chk.ok("R07.1", "scan:%s" % name, "delta %+d (fold form)" % delta, loc(sb["span"]))
             else:
                 chk.violation("R07.1", "scan:%s" % name, why, loc(sb["span"]))
 
